@@ -781,7 +781,8 @@ func (g *gen) iterDir(depth int) piece {
 		caret = true
 	case x < 20 && depth < 1:
 		// a nested block in the body
-		inner := common.Pick(g.r, []string{"~(~A~)", "~[a~;b~;c~]", "~:[n~;y~]", "~@[~A~]", "~{~A~}", "~2{<~A>~}", "~{~A~:}"})
+		inner := common.Pick(g.r, []string{"~(~A~)", "~[a~;b~;c~]", "~:[n~;y~]", "~@[~A~]", "~{~A~}", "~2{<~A>~}", "~{~A~:}",
+			"~3,'}D", "~1[a~;b~]~A", "~v{~A~}~:*", "~#[~;~A~:;<~A>~]"}) // closers after a quote, openers after parameters
 		bctl, per = inner+sep, 1
 	default:
 		bctl += sep
